@@ -31,6 +31,7 @@ package fsm
 //@ results err
 //@ requires s != nil && s.state != nil
 //@ ensures[every-tombstone-written] err == nil ==> outLen() == old(outLen()) + 2*itLen(stones) && forall j int :: 0 <= j && j < itLen(stones) ==> outIsBytes(old(outLen()) + 2*j) && eq(outBytes(old(outLen()) + 2*j), byte1(structs.TombstoneRequestType)) && !outIsBytes(old(outLen()) + 2*j + 1) && is[*structs.DirEntry](outObj(old(outLen()) + 2*j + 1)) && allocated(as[*structs.DirEntry](outObj(old(outLen()) + 2*j + 1))) && as[*structs.DirEntry](outObj(old(outLen()) + 2*j + 1)).Key == itElem(stones, j).(*state.Tombstone).Key && as[*structs.DirEntry](outObj(old(outLen()) + 2*j + 1)).ModifyIndex == itElem(stones, j).(*state.Tombstone).Index
+//@ ensures[every-stored-tombstone-is-iterated] err == nil ==> forall k string :: T_tombstones(k) != nil ==> exists j int :: 0 <= j && j < itLen(stones) && itElem(stones, j).(*state.Tombstone) == T_tombstones(k)
 //@ loop 1 invariant[pos] 0 <= itPos(stones) && itPos(stones) <= itLen(stones)
 //@ loop 1 invariant[cursor] (stone != nil ==> itPos(stones) >= 1 && stone == itElem(stones, itPos(stones)-1)) && (stone == nil ==> itPos(stones) == itLen(stones))
 //@ loop 1 invariant[written-so-far] outLen() == old(outLen()) + 2*ite(stone != nil, itPos(stones) - 1, itPos(stones)) && forall j int :: 0 <= j && j < ite(stone != nil, itPos(stones) - 1, itPos(stones)) ==> outIsBytes(old(outLen()) + 2*j) && eq(outBytes(old(outLen()) + 2*j), byte1(structs.TombstoneRequestType)) && !outIsBytes(old(outLen()) + 2*j + 1) && is[*structs.DirEntry](outObj(old(outLen()) + 2*j + 1)) && allocated(as[*structs.DirEntry](outObj(old(outLen()) + 2*j + 1))) && as[*structs.DirEntry](outObj(old(outLen()) + 2*j + 1)).Key == itElem(stones, j).(*state.Tombstone).Key && as[*structs.DirEntry](outObj(old(outLen()) + 2*j + 1)).ModifyIndex == itElem(stones, j).(*state.Tombstone).Index
@@ -41,6 +42,7 @@ package fsm
 //@ results err
 //@ requires s != nil && s.state != nil
 //@ ensures[every-row-written] err == nil ==> outLen() == old(outLen()) + 2*itLen(entries) && forall j int :: 0 <= j && j < itLen(entries) ==> outIsBytes(old(outLen()) + 2*j) && eq(outBytes(old(outLen()) + 2*j), byte1(structs.KVSRequestType)) && !outIsBytes(old(outLen()) + 2*j + 1) && outObj(old(outLen()) + 2*j + 1) == any(itElem(entries, j).(*structs.DirEntry))
+//@ ensures[every-stored-entry-is-iterated] err == nil ==> forall k string :: T_kvs(k) != nil ==> exists j int :: 0 <= j && j < itLen(entries) && itElem(entries, j).(*structs.DirEntry) == T_kvs(k)
 //@ loop 1 invariant[pos] 0 <= itPos(entries) && itPos(entries) <= itLen(entries)
 //@ loop 1 invariant[cursor] (entry != nil ==> itPos(entries) >= 1 && entry == itElem(entries, itPos(entries)-1)) && (entry == nil ==> itPos(entries) == itLen(entries))
 //@ loop 1 invariant[written-so-far] outLen() == old(outLen()) + 2*ite(entry != nil, itPos(entries) - 1, itPos(entries)) && forall j int :: 0 <= j && j < ite(entry != nil, itPos(entries) - 1, itPos(entries)) ==> outIsBytes(old(outLen()) + 2*j) && eq(outBytes(old(outLen()) + 2*j), byte1(structs.KVSRequestType)) && !outIsBytes(old(outLen()) + 2*j + 1) && outObj(old(outLen()) + 2*j + 1) == any(itElem(entries, j).(*structs.DirEntry))
@@ -51,6 +53,7 @@ package fsm
 //@ results err
 //@ requires s != nil && s.state != nil
 //@ ensures[every-row-written] err == nil ==> outLen() == old(outLen()) + 2*itLen(sessions) && forall j int :: 0 <= j && j < itLen(sessions) ==> outIsBytes(old(outLen()) + 2*j) && eq(outBytes(old(outLen()) + 2*j), byte1(structs.SessionRequestType)) && !outIsBytes(old(outLen()) + 2*j + 1) && outObj(old(outLen()) + 2*j + 1) == any(itElem(sessions, j).(*structs.Session))
+//@ ensures[every-stored-session-is-iterated] err == nil ==> forall k string :: T_sessions(k) != nil ==> exists j int :: 0 <= j && j < itLen(sessions) && itElem(sessions, j).(*structs.Session) == T_sessions(k)
 //@ loop 1 invariant[pos] 0 <= itPos(sessions) && itPos(sessions) <= itLen(sessions)
 //@ loop 1 invariant[cursor] (session != nil ==> itPos(sessions) >= 1 && session == itElem(sessions, itPos(sessions)-1)) && (session == nil ==> itPos(sessions) == itLen(sessions))
 //@ loop 1 invariant[written-so-far] outLen() == old(outLen()) + 2*ite(session != nil, itPos(sessions) - 1, itPos(sessions)) && forall j int :: 0 <= j && j < ite(session != nil, itPos(sessions) - 1, itPos(sessions)) ==> outIsBytes(old(outLen()) + 2*j) && eq(outBytes(old(outLen()) + 2*j), byte1(structs.SessionRequestType)) && !outIsBytes(old(outLen()) + 2*j + 1) && outObj(old(outLen()) + 2*j + 1) == any(itElem(sessions, j).(*structs.Session))
@@ -117,10 +120,15 @@ package fsm
 //@ results err
 //@ modifies nothing
 //@ func snapshot.persistIndex
-//@ trusted
+//@ props C02
 //@ opt record persistIndex
 //@ results err
-//@ modifies nothing
+//@ requires s != nil && s.state != nil
+//@ ensures[every-row-written] err == nil ==> outLen() == old(outLen()) + 2*itLen(iter) && forall j int :: 0 <= j && j < itLen(iter) ==> outIsBytes(old(outLen()) + 2*j) && eq(outBytes(old(outLen()) + 2*j), byte1(structs.IndexRequestType)) && !outIsBytes(old(outLen()) + 2*j + 1) && outObj(old(outLen()) + 2*j + 1) == any(itElem(iter, j).(*state.IndexEntry))
+//@ ensures[every-stored-row-is-iterated] err == nil ==> forall k string :: T_index(k) != nil ==> exists j int :: 0 <= j && j < itLen(iter) && itElem(iter, j).(*state.IndexEntry) == T_index(k)
+//@ loop 1 invariant[pos] 0 <= itPos(iter) && itPos(iter) <= itLen(iter)
+//@ loop 1 invariant[cursor] (raw != nil ==> itPos(iter) >= 1 && raw == itElem(iter, itPos(iter)-1)) && (raw == nil ==> itPos(iter) == itLen(iter))
+//@ loop 1 invariant[written-so-far] outLen() == old(outLen()) + 2*ite(raw != nil, itPos(iter) - 1, itPos(iter)) && forall j int :: 0 <= j && j < ite(raw != nil, itPos(iter) - 1, itPos(iter)) ==> outIsBytes(old(outLen()) + 2*j) && eq(outBytes(old(outLen()) + 2*j), byte1(structs.IndexRequestType)) && !outIsBytes(old(outLen()) + 2*j + 1) && outObj(old(outLen()) + 2*j + 1) == any(itElem(iter, j).(*state.IndexEntry))
 //@ func snapshot.persistLegacyIntentions
 //@ trusted
 //@ opt record persistLegacyIntentions
@@ -137,15 +145,25 @@ package fsm
 //@ results err
 //@ modifies nothing
 //@ func snapshot.persistPeeringTrustBundles
-//@ trusted
+//@ props C02
 //@ opt record persistPeeringTrustBundles
 //@ results err
-//@ modifies nothing
+//@ requires s != nil && s.state != nil
+//@ ensures[every-row-written] err == nil ==> outLen() == old(outLen()) + 2*itLen(ptbs) && forall j int :: 0 <= j && j < itLen(ptbs) ==> outIsBytes(old(outLen()) + 2*j) && eq(outBytes(old(outLen()) + 2*j), byte1(structs.PeeringTrustBundleWriteType)) && !outIsBytes(old(outLen()) + 2*j + 1) && outObj(old(outLen()) + 2*j + 1) == any(itElem(ptbs, j).(*pbpeering.PeeringTrustBundle))
+//@ ensures[every-stored-row-is-iterated] err == nil ==> forall k string :: T_peering_trust_bundles(k) != nil ==> exists j int :: 0 <= j && j < itLen(ptbs) && itElem(ptbs, j).(*pbpeering.PeeringTrustBundle) == T_peering_trust_bundles(k)
+//@ loop 1 invariant[pos] 0 <= itPos(ptbs) && itPos(ptbs) <= itLen(ptbs)
+//@ loop 1 invariant[cursor] (entry != nil ==> itPos(ptbs) >= 1 && entry == itElem(ptbs, itPos(ptbs)-1)) && (entry == nil ==> itPos(ptbs) == itLen(ptbs))
+//@ loop 1 invariant[written-so-far] outLen() == old(outLen()) + 2*ite(entry != nil, itPos(ptbs) - 1, itPos(ptbs)) && forall j int :: 0 <= j && j < ite(entry != nil, itPos(ptbs) - 1, itPos(ptbs)) ==> outIsBytes(old(outLen()) + 2*j) && eq(outBytes(old(outLen()) + 2*j), byte1(structs.PeeringTrustBundleWriteType)) && !outIsBytes(old(outLen()) + 2*j + 1) && outObj(old(outLen()) + 2*j + 1) == any(itElem(ptbs, j).(*pbpeering.PeeringTrustBundle))
 //@ func snapshot.persistPeerings
-//@ trusted
+//@ props C02
 //@ opt record persistPeerings
 //@ results err
-//@ modifies nothing
+//@ requires s != nil && s.state != nil
+//@ ensures[every-row-written] err == nil ==> outLen() == old(outLen()) + 2*itLen(peerings) && forall j int :: 0 <= j && j < itLen(peerings) ==> outIsBytes(old(outLen()) + 2*j) && eq(outBytes(old(outLen()) + 2*j), byte1(structs.PeeringWriteType)) && !outIsBytes(old(outLen()) + 2*j + 1) && outObj(old(outLen()) + 2*j + 1) == any(itElem(peerings, j).(*pbpeering.Peering))
+//@ ensures[every-stored-row-is-iterated] err == nil ==> forall k string :: T_peering(k) != nil ==> exists j int :: 0 <= j && j < itLen(peerings) && itElem(peerings, j).(*pbpeering.Peering) == T_peering(k)
+//@ loop 1 invariant[pos] 0 <= itPos(peerings) && itPos(peerings) <= itLen(peerings)
+//@ loop 1 invariant[cursor] (entry != nil ==> itPos(peerings) >= 1 && entry == itElem(peerings, itPos(peerings)-1)) && (entry == nil ==> itPos(peerings) == itLen(peerings))
+//@ loop 1 invariant[written-so-far] outLen() == old(outLen()) + 2*ite(entry != nil, itPos(peerings) - 1, itPos(peerings)) && forall j int :: 0 <= j && j < ite(entry != nil, itPos(peerings) - 1, itPos(peerings)) ==> outIsBytes(old(outLen()) + 2*j) && eq(outBytes(old(outLen()) + 2*j), byte1(structs.PeeringWriteType)) && !outIsBytes(old(outLen()) + 2*j + 1) && outObj(old(outLen()) + 2*j + 1) == any(itElem(peerings, j).(*pbpeering.Peering))
 //@ func snapshot.persistPreparedQueries
 //@ trusted
 //@ opt record persistPreparedQueries
